@@ -761,6 +761,8 @@ func runC07(w *World, r *Report) {
 		}
 	}
 
+	shareRule(w, r, "C07.keyed-helper-sides", "the helper of a node with an output key replaces the output-side slots (converter, pair, zero value) by the map's: a pass-through typed from it checks interface-typed edges against map[string]any, not against the inner output type", 4, "C04", "C04.in-out-wiring")
+
 	r.Rule("C07.getters-pure", "no get… / is… / input… / output… method of the builder types (graph, graphNode, composableRunnable, genericHelper, Chain, Workflow) stores into its receiver: what they answer follows later type inference", 5)
 	{
 		n := 0
